@@ -2,6 +2,8 @@
 import re
 from mirsym import mir, smt, modeb
 from mirsym_run import Q
+import os
+from common import *
 
 LEVEL = "other"
 EXPLANATION = ("mirsym Mode B: solver-decided call-order and error-propagation obligations over the MIR control-flow graphs of the "
@@ -13,7 +15,7 @@ BOUNDS = "all control-flow paths of the encoded functions (acyclic justification
 ASSUMPTIONS = ["a tokio JoinSet yields each spawned task's result exactly once and None only when empty",
                "`?` on a Result is Try::branch + FromResidual::from_residual as rustc's MIR shows",
                "the Client implementation reports a failed store call as Err"]
-OUTSIDE = ["an injected-client run of the session (Kani cannot compile tokio)", "completion orders of background tasks (covered only in that no path ignores a failed call)"]
+OUTSIDE = ["a general fault-injected run of the session (the native replay injects xorb-put faults through the local store's file system only)", "completion orders of background tasks (covered only in that no path ignores a failed call)"]
 
 TRY = r"as Try>::branch$"
 RESID = r"FromResidual<.*>>::from_residual$"
@@ -34,6 +36,20 @@ def propagate(g, sc, name, call_pat):
     src = [s for s in modeb.after(g, calls) if s not in tb]
     modeb.no_path_query(g, sc, "%s: result of %s is checked by `?` before anything else happens" % (name, call_pat), src, dst, tb)
     modeb.no_path_query(g, sc, "witness %s: a `?` is reachable after %s" % (name, call_pat), modeb.after(g, calls), tb, [], expect="sat", kind="witness")
+
+
+def inner_result_checked(g, sc, name):
+    """A join result is Option<Result<Result<(), E>, JoinError>>: after the `?` on the JoinError layer the task's own Result
+    must meet a second `?` before anything else happens - in particular before the next join is asked for."""
+    tb_all = g.blocks_calling(TRY)
+    TBJ = [b for b in tb_all if "JoinError" in g.callee(b)]
+    if not TBJ:
+        raise LookupError("%s no longer checks its joined tasks with `?`" % name)
+    for b in TBJ:
+        other = [x for x in g.nodes if g.callee(x) and not re.search(modeb.PLUMBING, g.callee(x)) and x not in tb_all and not re.search(RESID, g.callee(x))]
+        src = [s_ for s_ in g.succ[b]]
+        modeb.no_path_query(g, sc, "%s: the joined task's own Result is checked by a second `?` before the next join / call / return [%s]" % (name, b),
+                            src, sorted(set(other) | g.real_returns), [x for x in tb_all if x != b] + g.blocks_calling(RESID))
 
 
 def error_exit_is_clean(g, sc, name):
@@ -62,12 +78,7 @@ def build(fns):
     modeb.no_path_query(g, sc, "witness: shard upload reachable", [g.entry], U, [], expect="sat", kind="witness")
     for pat in (r"process_aggregated_data_as_xorb$", r"upload_and_register_session_shards$", r"session_file_info_list$"):
         propagate(g, sc, "finalize_impl", pat)
-    # join_next: Option<Result<Result<..>>>: the Some payload goes through two `?`
-    for b in TBJ:
-        tb_all = g.blocks_calling(TRY)
-        other = [x for x in g.nodes if g.callee(x) and not re.search(modeb.PLUMBING, g.callee(x)) and x not in tb_all and x not in J and not re.search(RESID, g.callee(x))]
-        modeb.no_path_query(g, sc, "finalize_impl: the task's own Result (inside the join result) is checked by a second `?` [%s]" % b,
-                            [s for s in g.succ[b]], sorted(set(other) | g.real_returns), [x for x in tb_all if x != b] + g.blocks_calling(RESID))
+    inner_result_checked(g, sc, "finalize_impl")
     error_exit_is_clean(g, sc, "finalize_impl")
     scripts.append(sc)
     # ---- register_new_xorb_for_upload and its spawned upload task
@@ -77,6 +88,7 @@ def build(fns):
     TBJ = [b for b in g.blocks_calling(TRY) if "JoinError" in g.callee(b)]
     if not TBJ:
         raise LookupError("register_new_xorb_for_upload no longer checks finished upload tasks with `??`")
+    inner_result_checked(g, sc, "register_new_xorb_for_upload")
     sp = g.blocks_calling(r"JoinSet::<.*>::spawn")
     tj = g.blocks_calling(r"try_join_next$")
     modeb.no_path_query(g, sc, "a new upload is spawned only after finished tasks were polled for errors", [g.entry], sp, tj)
@@ -112,6 +124,7 @@ def build(fns):
     TBJ = [b for b in g.blocks_calling(TRY) if "JoinError" in g.callee(b)]
     if not TBJ:
         raise LookupError("upload_and_register_session_shards no longer checks its upload tasks with `??`")
+    inner_result_checked(g, sc, "upload_and_register_session_shards")
     modeb.no_path_query(g, sc, "Ok is returned only after the shard-upload join loop was entered", [g.entry], sorted(g.real_returns),
                         g.blocks_calling(r"JoinSet::<.*>::join_next$") + g.blocks_calling(RESID))
     task = [f for n, f in fns.items() if re.search(r"upload_and_register_session_shards::\{closure#0\}::\{closure#\d+\}$", n) and modeb.CFG(f).blocks_calling(r"upload_shard$")]
@@ -126,8 +139,25 @@ def build(fns):
     return scripts
 
 
+
+def _native(testfile, testfn, tag):
+    def run(model, fnd, prop):
+        env = base_env()
+        env["CARGO_TARGET_DIR"] = os.path.join(BUILD, "replay_target")
+        cmd = ["cargo", "test", "--offline", "--test", testfile] + (["--", testfn] if testfn else [])
+        rc, out = sh(cmd, cwd=os.path.join(VERIF, "replay"), env=env, timeout=2400, log=os.path.join(LOGS, "replay_%s_%s.log" % (testfile, testfn or "all")))
+        path = os.path.join(VERIF, "replay", "tests", testfile + ".rs")
+        if "test result: FAILED" in out:
+            m = re.search(tag + r" violated: [^\n]*", out)
+            return True, path, m.group(0)[:240] if m else ("native replay fails: " + (re.search(r"panicked at [^\n]*\n[^\n]*", out).group(0).replace("\n", " ")[:200] if re.search(r"panicked at [^\n]*\n[^\n]*", out) else "test failed"))
+        if re.search(r"test result: ok. [1-9]\d* passed", out):
+            return False, path, "native replay %s passes" % (testfn or testfile)
+        return None, path, "native replay inconclusive (rc=%s)" % rc
+    return run
+
+
 _F = ["data::file_upload_session::FileUploadSession::{finalize_impl, register_new_xorb_for_upload (+ upload task), process_aggregated_data_as_xorb, register_single_file_clean_completion}",
       "data::deduplication_interface::UploadSessionDataManager::register_new_xorb",
       "data::shard_interface::SessionShardInterface::upload_and_register_session_shards (+ shard upload task)"]
 SMT = [Q("c16_order_and_errors", "upload ordering and error propagation of the session", "data", build, functions=_F, bounds="all CFG paths",
-         solvers=("z3", "cvc5-bv"))]
+         solvers=("z3", "cvc5-bv"), replay=_native("c16_xorb_put_failure_reported", None, "C16"))]
